@@ -82,6 +82,7 @@ def main():
                 break
             ctx.case = case
             ctx.case_index = i
+            vkeys_before = dict(ctx.vkeys)
             if progress and (i % 50 == 0):
                 with open(progress, "w") as f:
                     json.dump({"index": i, "case": case}, f, default=repr)
@@ -97,6 +98,26 @@ def main():
                 ctx.inconc("harness exception:\n" + traceback.format_exc()[-1500:])
             n += 1
             ctx.count("cases")
+            if i % 20 == 7 and not getattr(mod, "NO_TRANSPARENCY", False):
+                # monitor transparency (DESIGN 7.2): the same case once more with the walker
+                # suspended, on a scratch context; the verdicts of the property must not depend
+                # on whether the bystander monitors ran
+                own = sorted(k for k, c in ctx.vkeys.items() if c > vkeys_before.get(k, 0))
+                scratch = Ctx(a.prop, a.tier, a.seed, a.shard, a.nshards, budget)
+                scratch.probes = probes
+                scratch.case = case
+                scratch.case_index = i
+                try:
+                    with hooks.suspended():
+                        mod.run(case, scratch)
+                    other = sorted(scratch.vkeys)
+                    ctx.count("transparency_reruns")
+                    if own != other:
+                        ctx.count("transparency_mismatches")
+                        ctx.notes.setdefault("transparency_mismatch", "case %d: with walker %r, without %r" % (i, own, other))
+                except Exception as e:
+                    ctx.count("transparency_rerun_errors")
+                    ctx.notes.setdefault("transparency_rerun_error", repr(e)[:300])
         else:
             ctx.notes["stopped"] = "exhausted"
     finally:
